@@ -189,7 +189,7 @@ func ecLinear(cfg Config, file string, runs, steps int) (int, error) {
 	}
 	rng := rand.New(rand.NewSource(cfg.Seed*7919 + int64(cfg.Shard+1)))
 	for r := 0; r < runs; r++ {
-		c := ecConfigs[(r+int(cfg.Seed))%len(ecConfigs)]
+		c := ecConfigs[(r*3+int(cfg.Seed)+cfg.Shard)%len(ecConfigs)]
 		s := &ecSys{nk: nk}
 		ls.Run(s, func(st int) (tt.Op, bool) {
 			if st == 0 {
